@@ -134,3 +134,17 @@ package main
 //@   ensures [at-most-one-parse] parseCalls <= old(parseCalls) + 1
 //@   ensures [every-non-empty-value-reaches-the-parser] len(data) > 0 ==> parseCalls == old(parseCalls) + 1
 //@   ensures [non-zero-only-from-the-parser] parseCalls == old(parseCalls) ==> result == 0 && result1 == nil
+
+// SET EX/PX: the relative expiry becomes an absolute unix second (defect repaired: the
+// computation used to wrap around time.Duration). deadline = nowMs + num (PX) or
+// nowMs + 1000*num (EX), in mathematical integers for the refusal clause; the clauses about
+// the stored second use the machine division by 1000 of non-negative values (= floor),
+// which is exact once the refusal clause has shown that nothing wrapped.
+//@ func relativeExpireAt
+//@   property C29
+//@   requires nowMs >= 0 && num > 0
+//@   ensures [refused-exactly-when-the-deadline-does-not-fit] !result1 <==> (math(nowMs) + (seconds ? math(num) * 1000 : math(num))) > 9223372036854775807
+//@   ensures [strictly-in-the-future] result1 ==> result > uint64(nowMs / 1000)
+//@   ensures [second-of-the-deadline-unless-rounded-up] result1 ==> result == uint64((nowMs + (seconds ? num * 1000 : num)) / 1000) || result == uint64(nowMs / 1000) + 1
+//@   ensures [rounded-up-only-inside-the-current-second] result1 && result != uint64((nowMs + (seconds ? num * 1000 : num)) / 1000) ==> uint64((nowMs + (seconds ? num * 1000 : num)) / 1000) <= uint64(nowMs / 1000)
+//@   modifies nothing
